@@ -29,9 +29,6 @@ def showBytes (bs : List UInt8) : String :=
   let n := bs.length
   if n ≤ 4096 then s!"{n} {hex bs}" else s!"{n} crc:{hex8 (crc32 bs)}"
 
-def le32 (n : Nat) : List UInt8 :=
-  [UInt8.ofNat n, UInt8.ofNat (n >>> 8), UInt8.ofNat (n >>> 16), UInt8.ofNat (n >>> 24)]
-
 def showLines (ls : List (List UInt8)) : String :=
   let total := ls.foldl (fun a l => a + l.length + 1) 0
   if total ≤ 4096 then s!"n={ls.length} " ++ ",".intercalate (ls.map hex)
@@ -94,10 +91,6 @@ def init : St := { disk := fun _ => none, xdev := false, sess := none }
 def b01 (b : Bool) : String := if b then "1" else "0"
 
 def hasNul (bs : List UInt8) : Bool := bs.contains 0
-
-def decimal (i : Int) : List UInt8 := (toString i).toUTF8.toList
-
-def cstr (bs : List UInt8) : List UInt8 := bs.takeWhile (· != 0)
 
 /-- two paths are on different devices -/
 def cross (st : St) (p q : Nat) : Bool := st.xdev && (p / 2 != q / 2)
